@@ -68,10 +68,15 @@ Definition mismatches (cs : list case) : list N :=
 
 Definition SIG_CLEAN_ROOTED := 1.   (* Clean of an absolute path is not "/"-rooted, clean, free of ".." *)
 Definition SIG_JOIN_ROOTED := 2.    (* Join onto an absolute base is not *)
+Definition SIG_JOIN_LEAVES_BASE := 3. (* Join of a clean rooted base (other than "/") and an already clean
+                                         rooted path is not the base or the base continued with a
+                                         separator - judged by components ([inside_b]), not by text *)
 
 Definition case_sig (c : case) : N :=
   if c_abs c && negb (rooted_clean_b (c_clean c)) then SIG_CLEAN_ROOTED
   else if is_abs (c_q c) && negb (rooted_clean_b (c_join c)) then SIG_JOIN_ROOTED
+  else if rooted_clean_b (c_q c) && negb (eqb_bytes (c_q c) [SLASH]) && rooted_clean_b (c_p c)
+          && negb (inside_b (c_q c) (c_join c)) then SIG_JOIN_LEAVES_BASE
   else 0.
 
 Definition violations (cs : list case) : list (N * N) :=
@@ -108,22 +113,30 @@ Definition mismatches (cs : list case) : list N :=
 Definition SIG_REALPATH_OUTSIDE := 1.
 Definition SIG_CWD_NOT_ROOTED := 2.
 Definition SIG_SHAPE := 3.
+Definition SIG_CWD_NO_DIR := 4.   (* a directory change succeeded and Cwd() names no directory of the
+                                     (unchanging) scratch tree inside the root *)
 
-(* a RealPath result must be a clean absolute path at or beneath the root *)
+(* a RealPath result must be a clean absolute path at or beneath the root: the root itself or
+   the root continued with a separator ([inside_b]) - NOT merely a string that begins with the
+   root's text (root .../root, result .../root.old/x) *)
 Definition real_ok (root rp : bytes) : bool := rooted_clean_b rp && inside_b root rp.
 
-Fixpoint obs_sig (root : bytes) (os : list hop) (xs : list (N * bytes)) : N :=
+Fixpoint obs_sig (fs : hostfs) (root : bytes) (os : list hop) (xs : list (N * bytes)) : N :=
   match os, xs with
   | [], [] => 0
-  | HReal _ :: os', (_, rp) :: xs' => if real_ok root rp then obs_sig root os' xs' else SIG_REALPATH_OUTSIDE
-  | HCd _ :: os', (_, cwd) :: xs' =>
-      if rooted_clean_b cwd && real_ok root (real_path root [SLASH] cwd) then obs_sig root os' xs'
+  | HReal _ :: os', (_, rp) :: xs' => if real_ok root rp then obs_sig fs root os' xs' else SIG_REALPATH_OUTSIDE
+  | HCd _ :: os', (code, cwd) :: xs' =>
+      if rooted_clean_b cwd && real_ok root (under root cwd) then
+        (* nothing in this part changes the tree: a successful change must have led to a directory
+           that exists inside the root *)
+        if (code =? 0) && negb (is_dir fs (under root cwd)) then SIG_CWD_NO_DIR
+        else obs_sig fs root os' xs'
       else SIG_CWD_NOT_ROOTED
   | _, _ => SIG_SHAPE
   end.
 
 Definition violations (cs : list case) : list (N * N) :=
-  flat_map (fun c => let s := obs_sig (c_root c) (c_ops c) (c_obs c) in
+  flat_map (fun c => let s := obs_sig (c_fs c) (c_root c) (c_ops c) (c_obs c) in
                      if s =? 0 then [] else [(c_id c, s)]) cs.
 
 (* 1 = some argument has "..", 2 = some directory change succeeded away from "/" *)
@@ -180,6 +193,11 @@ Definition SIG_CWD_REPORTED := 3.       (* PWD text is not a clean rooted path *
 Definition SIG_HOST_ESCAPE := 4.        (* effect at the host root / process working directory *)
 Definition SIG_LISTED_NOT_INSIDE := 5.  (* a listing line that is no entry of a directory inside the root
                                            (name and metadata): ".", "..", or something from outside *)
+Definition SIG_SIBLING_CHANGED := 6.    (* as 1, and everything that changed lies at or beneath an entry beside the
+                                           root whose NAME merely begins with the root's name (root.old, root2, root-) *)
+Definition SIG_SIBLING_DISCLOSED := 7.  (* as 2, and what was sent comes from such an entry only *)
+Definition SIG_CWD_NO_DIR := 8.         (* in a session that changes nothing, the PWD text names no directory
+                                           inside the root *)
 
 Definition lentry_eqb (a b : bytes * bytes) : bool := eqb_bytes (fst a) (fst b) && eqb_bytes (snd a) (snd b).
 Definition listing_ok (l : list (bytes * bytes) * list (bytes * bytes)) : bool :=
@@ -215,6 +233,36 @@ Definition discloses (outs : list bytes) (o : list N * payload) : bool :=
   | PNone => false
   end.
 
+(* the same without the mark rule: whole file, piece of a file, or its size - used to tell
+   WHICH outside files a transfer came from *)
+Definition text_from (outs : list bytes) (t : bytes) : bool :=
+  existsb (fun c => infix_b c t) outs || ((4 <=? length t)%nat && existsb (fun c => infix_b t c) outs).
+Definition comes_from (outs : list bytes) (o : list N * payload) : bool :=
+  match snd o with
+  | PText b => text_from outs b
+  | PRetr n b => size_discloses outs n || text_from outs b
+  | PNum n => size_discloses outs n
+  | _ => false
+  end.
+
+(* outside entries whose spelling begins with the root's spelling / all other outside entries *)
+Definition beside_named (root : bytes) (fs : hostfs) : hostfs :=
+  filter (fun e => name_extends_b root (fst e)) fs.
+Definition outside_far (root : bytes) (fs : hostfs) : hostfs :=
+  filter (fun e => negb (inside_b root (fst e)) && negb (text_prefixed_b root (fst e))) fs.
+Definition contents_of (fs : hostfs) : list bytes :=
+  flat_map (fun e => match snd e with NFile (x :: r) => [x :: r] | _ => [] end) fs.
+
+(* In a session whose commands change nothing on the host (and whose snapshot is unchanged)
+   the window before the session is the ground truth throughout: every PWD text must name a
+   directory that exists inside the root. *)
+Fixpoint pwd_nodir (root : bytes) (fs : hostfs) (cs : list cmd) (os : list (list N * payload)) : bool :=
+  match cs, os with
+  | CPwd :: cs', (_, PText t) :: os' => negb (is_dir fs (under root t)) || pwd_nodir root fs cs' os'
+  | _ :: cs', _ :: os' => pwd_nodir root fs cs' os'
+  | _, _ => false
+  end.
+
 (* PWD text is exempt from the piece rule only in that it is judged as a path below *)
 Fixpoint pwd_bad (cs : list cmd) (os : list (list N * payload)) : bool :=
   match cs, os with
@@ -224,9 +272,16 @@ Fixpoint pwd_bad (cs : list cmd) (os : list (list N * payload)) : bool :=
   end.
 
 Definition case_sig (c : case) : N :=
-  if negb (fs_eqb (outside (c_root c) (c_fs c)) (outside (c_root c) (c_final c))) then SIG_OUTSIDE_CHANGED
-  else if existsb (discloses (outside_contents (c_root c) (c_fs c))) (c_obs c) then SIG_OUTSIDE_DISCLOSED
+  if negb (fs_eqb (outside (c_root c) (c_fs c)) (outside (c_root c) (c_final c))) then
+    (if fs_eqb (outside_far (c_root c) (c_fs c)) (outside_far (c_root c) (c_final c))
+     then SIG_SIBLING_CHANGED else SIG_OUTSIDE_CHANGED)
+  else if existsb (discloses (outside_contents (c_root c) (c_fs c))) (c_obs c) then
+    (if existsb (comes_from (contents_of (beside_named (c_root c) (c_fs c)))) (c_obs c)
+        && negb (existsb (comes_from (contents_of (outside_far (c_root c) (c_fs c)))) (c_obs c))
+     then SIG_SIBLING_DISCLOSED else SIG_OUTSIDE_DISCLOSED)
   else if pwd_bad (c_cmds c) (c_obs c) then SIG_CWD_REPORTED
+  else if forallb readonly_cmd (c_cmds c) && fs_eqb (c_fs c) (c_final c)
+          && pwd_nodir (c_root c) (c_fs c) (c_cmds c) (c_obs c) then SIG_CWD_NO_DIR
   else if c_escape c then SIG_HOST_ESCAPE
   else if negb (forallb listing_ok (c_lists c)) then SIG_LISTED_NOT_INSIDE
   else 0.
